@@ -51,6 +51,7 @@ type verifReq struct {
 	AltEntry   []string `json:"alt_entry,omitempty"`
 	Recv       string   `json:"recv,omitempty"`
 	NoPrepare  bool     `json:"no_prepare,omitempty"`
+	SameOpts   bool     `json:"same_opts,omitempty"`
 	Order      []int    `json:"order,omitempty"` // map iteration choices (overlay build only)
 }
 
@@ -196,10 +197,18 @@ func verifHandle(req *verifReq) (resp verifResp) {
 			recv = "c"
 		}
 		var outBuf bytes.Buffer
-		if err := builder.BuildParser(&outBuf, grammar,
-			builder.ReceiverName(recv), builder.Optimize(req.Optimize),
+		// SameOpts: a caller that keeps its option VALUES (opts := []builder.Option{...}) and passes
+		// them to every build; the values of the previous build are passed again when the settings
+		// are the same
+		key := fmt.Sprint(recv, req.Optimize, req.BasicLatin, req.Nolint, req.LeftRec)
+		opts := []builder.Option{builder.ReceiverName(recv), builder.Optimize(req.Optimize),
 			builder.BasicLatinLookupTable(req.BasicLatin), builder.Nolint(req.Nolint),
-			builder.SupportLeftRecursion(req.LeftRec)); err != nil {
+			builder.SupportLeftRecursion(req.LeftRec)}
+		if req.SameOpts && verifLastOptsKey == key {
+			opts = verifLastOpts
+		}
+		verifLastOpts, verifLastOptsKey = opts, key
+		if err := builder.BuildParser(&outBuf, grammar, opts...); err != nil {
 			resp.Err, resp.ErrKind = err.Error(), "build"
 			return resp
 		}
@@ -211,6 +220,12 @@ func verifHandle(req *verifReq) (resp verifResp) {
 	}
 	return resp
 }
+
+// option values of the previous build-mode request (see SameOpts)
+var (
+	verifLastOpts    []builder.Option
+	verifLastOptsKey string
+)
 
 type verifExit struct{ code int }
 
